@@ -151,6 +151,19 @@ UniqueSorted(A) ==      \* requires no NaN
       srt == SetToSortSeq(vals, LAMBDA x, y : VLt(x, y, A.kind))
   IN Arr(<<Len(srt)>>, srt, A.kind)
 
+\* pointwise (vectorized) indexing: lists[a] is a sequence of positions for an indexed axis a, <<>> for an axis kept whole;
+\* all non-empty lists have the same length L; the point axis comes first, then the kept axes in order
+VIndex(A, lists) ==
+  LET r == Len(A.shape)
+      st == StridesOf(A.shape)
+      idxd == SelectSeq([a \in 1..r |-> a], LAMBDA a : lists[a] # <<>>)
+      kept == SelectSeq([a \in 1..r |-> a], LAMBDA a : lists[a] = <<>>)
+      npts == Len(lists[idxd[1]])
+      oshape == <<npts>> \o [j \in 1..Len(kept) |-> A.shape[kept[j]]]
+  IN Build(oshape, A.kind,
+           LAMBDA o : AtS(A, st, [a \in 1..r |-> IF lists[a] # <<>> THEN PosInt(lists[a][o[1] + 1], A.shape[a])
+                                                ELSE o[1 + (CHOOSE j \in 1..Len(kept) : kept[j] = a)]]))
+
 \* 1-D boolean mask applied along one axis = take of the true positions
 MaskAxis(A, M, ax) ==
   Take(A, SelectSeq([k \in 1..Len(M.data) |-> k - 1], LAMBDA p : M.data[p + 1] # 0), ax)
